@@ -583,6 +583,8 @@ type SexpLazyArg struct {
 	CurFunc *SexpFunction
 	Forced  bool
 	Value   Sexp
+	forcing bool  // the expression is being evaluated
+	err     error // the evaluation failed: every force reports this
 }
 
 func NewSourceLazyArg(env *Zlisp, expr Sexp) *SexpLazyArg {
@@ -621,7 +623,10 @@ func (lazy *SexpLazyArg) Force(env *Zlisp) (Sexp, error) {
 		return SexpNull, fmt.Errorf("cannot force nil lazy argument")
 	}
 	if lazy.Forced {
-		return lazy.Value, nil
+		return lazy.Value, lazy.err
+	}
+	if lazy.forcing {
+		return SexpNull, fmt.Errorf("lazy argument forced while it is being evaluated")
 	}
 	if env == nil {
 		return SexpNull, fmt.Errorf("cannot force lazy argument with nil environment")
@@ -662,14 +667,19 @@ func (lazy *SexpLazyArg) Force(env *Zlisp) (Sexp, error) {
 		env.restoreControlState(callState)
 		return SexpNull, err
 	}
+	// the expression is evaluated once, however that evaluation ends
+	lazy.forcing = true
 	res, err := env.Run()
+	lazy.forcing = false
+	lazy.Forced = true
 	if err != nil {
 		env.restoreControlState(callState)
+		lazy.Value = SexpNull
+		lazy.err = err
 		return SexpNull, err
 	}
 	env.restoreControlState(callState)
 	lazy.Value = res
-	lazy.Forced = true
 	return res, nil
 }
 
